@@ -210,6 +210,21 @@ fn main() {
                 2
             }
         };
+        // A violation that depends on what the same run did earlier (state the code under test keeps
+        // between calls) may not show when its case is executed alone: fall back to re-executing the
+        // recorded run as a whole, in a child process.
+        if code == 0 {
+            if let (Some(i), Some(t)) = (doc["run"].as_u64(), doc["tier"].as_str()) {
+                let t = if t == "thorough" { Tier::Thorough } else { Tier::Quick };
+                std::env::set_var("VERIF_SEED", doc["verif_seed"].as_u64().unwrap_or(seed).to_string());
+                let st = child(cmd, t, Some(i as usize)).and_then(|mut c| c.wait()).ok();
+                if st.and_then(|s| s.code()) == Some(1) {
+                    println!("VIOLATION property={} replay={}", cmd, path);
+                    println!("  the recorded case alone did not fail; re-executing run {} of the {} tier as a whole found the violation again", i, t.name());
+                    std::process::exit(1);
+                }
+            }
+        }
         std::process::exit(code);
     }
     // Supervisor: the batch itself runs in a child process. If the child dies abnormally (an
